@@ -114,9 +114,7 @@ class CapturedKernel:
         self.reach = max((abs(o) for o in offs), default=0)
         if self.iteration_slice is not None and self.reach != 0:
             raise HarnessError("iteration slice with neighbour access not modelled")
-        for _, off in self.writes:
-            if any(off):
-                raise HarnessError("off-centre write not modelled")
+        self.off_centre_writes = [(n, off) for n, off in self.writes if any(off)]
         def canon(e):
             rep = {
                 a: sp.Symbol(f"{a.field.name}@{tuple(int(o) for o in a.offsets)}@{a.field.spatial_dimensions}")
@@ -374,6 +372,8 @@ class KernelCallable:
         result depend on iteration order (C15b)."""
         ck = self.ck
         out = []
+        for n, off in ck.off_centre_writes:
+            out.append((n, n, off, "off-centre write"))
         for w in ck.written_fields:
             wa = fields[w]
             wl, wh = _byte_bounds(wa)
@@ -497,7 +497,7 @@ class KernelCallable:
                     env[a] = fields[a.field.name][j]
             val = evaluate(rhs, env, ctx)
             if _is_access(lhs):
-                fields[lhs.field.name][idx] = val
+                fields[lhs.field.name][tuple(i + int(o) for i, o in zip(idx, lhs.offsets))] = val
             else:
                 env[lhs] = val
 
@@ -517,8 +517,9 @@ class KernelCallable:
                     env[a] = shadow[key] if key in shadow else fields[a.field.name][j]
             val = evaluate(rhs, env, ctx)
             if _is_access(lhs):
-                shadow[(lhs.field.name, idx)] = val
-                out.append((lhs.field.name, idx, val))
+                widx = tuple(i + int(o) for i, o in zip(idx, lhs.offsets))
+                shadow[(lhs.field.name, widx)] = val
+                out.append((lhs.field.name, widx, val))
             else:
                 env[lhs] = val
         return out
